@@ -17,12 +17,13 @@ type ModSet struct {
 	Index    bool // may store through slice/array elements not local to it
 	Deref    bool // may store through a pointer parameter / free variable
 	External bool // may call code outside the package (incl. application callbacks)
+	FreeStores map[int]bool // indices of the function's own free variables it stores through (closures)
 	Callees  map[*ssa.Function]bool
 }
 
 func newModSet() *ModSet {
 	return &ModSet{Writes: map[*types.Var]bool{}, Reads: map[*types.Var]bool{}, GWrites: map[*ssa.Global]bool{},
-		GReads: map[*ssa.Global]bool{}, Callees: map[*ssa.Function]bool{}}
+		GReads: map[*ssa.Global]bool{}, Callees: map[*ssa.Function]bool{}, FreeStores: map[int]bool{}}
 }
 
 // fieldOf returns the struct field addressed by a FieldAddr / Field instruction.
@@ -334,6 +335,10 @@ func (p *Prog) computeMods() {
 				if cm.Index && !m.Index {
 					m.Index, changed = true, true
 				}
+				if len(cm.FreeStores) > 0 && !m.Deref && c.Parent() != fn {
+					// stores through captured variables of a closure we cannot relate to this caller's cells
+					m.Deref, changed = true, true
+				}
 				if cm.Deref && !m.Deref {
 					m.Deref, changed = true, true
 				}
@@ -393,7 +398,19 @@ func (p *Prog) classifyStore(fn *ssa.Function, m *ModSet, addr ssa.Value) {
 	case *ssa.Alloc:
 		// local cell
 	case *ssa.FreeVar:
-		m.Deref = true
+		found := false
+		for i, fv := range fn.FreeVars {
+			if fv == a {
+				m.FreeStores[i] = true
+				found = true
+			}
+		}
+		if !found {
+			m.Deref = true
+		}
+	case *ssa.Convert:
+		// store through a pointer obtained from unsafe.Pointer arithmetic on a slice element (word-wise masking): element write
+		m.Index = true
 	default:
 		m.Deref = true
 	}
